@@ -10,10 +10,13 @@ import (
 	"fmt"
 	"io"
 	"net"
+	"os"
+	"strconv"
 	"strings"
+	"sync"
 	"testing"
-	"time"
 	"testing/synctest"
+	"time"
 
 	"github.com/named-data/ndnd/fw/face"
 	enc "github.com/named-data/ndnd/std/encoding"
@@ -25,19 +28,19 @@ import (
 // ---------------------------------------------------------------- C11: stream framing
 
 type StreamConfig struct {
-	Target  string `json:"target"`            // fw (readTlvStream) | std (StreamFace.Run over net.Pipe) | tcp, unix (the real transport's receive loop over a loopback socket; Reads are the sizes of the writes, the kernel decides the reads)
-	PauseAt []int  `json:"pause_at,omitempty"` // std: write indices before which the sender stays silent for PauseMs (a slow sender; simulated time)
-	PauseMs int    `json:"pause_ms,omitempty"`
-	FaceMtu int    `json:"face_mtu,omitempty"` // tcp, unix: MTU configured on the face (a send-side limit; must not affect what is received)
-	Reads   []int  `json:"reads"`             // read/chunk sizes, used cyclically
-	TempErr []int  `json:"temp_err,omitempty"` // read indices at which a transient error is injected
-	ErrWithData bool `json:"err_with_data,omitempty"` // transient error returned together with n>0
-	EofAt   int    `json:"eof_at"`            // -1: EOF after the last byte; else stream cut at this byte offset
+	Target      string `json:"target"`             // fw (readTlvStream) | std (StreamFace.Run over net.Pipe) | tcp, unix (the real transport's receive loop over a loopback socket; Reads are the sizes of the writes, the kernel decides the reads)
+	PauseAt     []int  `json:"pause_at,omitempty"` // std: write indices before which the sender stays silent for PauseMs (a slow sender; simulated time)
+	PauseMs     int    `json:"pause_ms,omitempty"`
+	FaceMtu     int    `json:"face_mtu,omitempty"`      // tcp, unix: MTU configured on the face (a send-side limit; must not affect what is received)
+	Reads       []int  `json:"reads"`                   // read/chunk sizes, used cyclically
+	TempErr     []int  `json:"temp_err,omitempty"`      // read indices at which a transient error is injected
+	ErrWithData bool   `json:"err_with_data,omitempty"` // transient error returned together with n>0
+	EofAt       int    `json:"eof_at"`                  // -1: EOF after the last byte; else stream cut at this byte offset
 }
 
 type Block struct {
-	T int `json:"t"` // TLV type number
-	L int `json:"l"` // value length
+	T int `json:"t"`           // TLV type number
+	L int `json:"l"`           // value length
 	N int `json:"n,omitempty"` // repeat count (N identical-shape blocks with distinct contents); 0 = 1
 }
 
@@ -82,6 +85,28 @@ func blockBytes(idx int, t, l int) []byte {
 	return b
 }
 
+// udpRxQueue returns the number of bytes queued for reading on the local UDP socket bound to port (Linux procfs).
+func udpRxQueue(port int) (int, bool) {
+	b, err := os.ReadFile("/proc/net/udp")
+	if err != nil {
+		return 0, false
+	}
+	want := fmt.Sprintf(":%04X", port)
+	for _, line := range strings.Split(string(b), "\n")[1:] {
+		f := strings.Fields(line)
+		if len(f) < 5 || !strings.HasSuffix(f[1], want) || !strings.HasPrefix(f[1], "0100007F") {
+			continue
+		}
+		q := strings.Split(f[4], ":")
+		if len(q) != 2 {
+			return 0, false
+		}
+		n, err := strconv.ParseInt(q[1], 16, 64)
+		return int(n), err == nil
+	}
+	return 0, true // the socket is gone: nothing is queued
+}
+
 func (StreamEngine) Generate(prop string, r *kit.Rand, tier string) *kit.Scenario[StreamConfig, Block] {
 	sc := &kit.Scenario[StreamConfig, Block]{}
 	c := &sc.Config
@@ -89,7 +114,7 @@ func (StreamEngine) Generate(prop string, r *kit.Rand, tier string) *kit.Scenari
 	if r.Chance(0.3) {
 		c.Target = "std"
 	} else if r.Chance(0.05) {
-		c.Target = kit.Pick(r, []string{"tcp", "unix"})
+		c.Target = kit.Pick(r, []string{"tcp", "unix", "udp"})
 		if r.Chance(0.5) {
 			c.FaceMtu = kit.Pick(r, []int{128, 576, 1200, 1500, 4000})
 		}
@@ -222,19 +247,19 @@ func (StreamEngine) Simplify(sc *kit.Scenario[StreamConfig, Block]) []*kit.Scena
 
 // chunkReader hands out the stream in scenario-chosen pieces.
 type chunkReader struct {
-	data    []byte
-	off     int
-	reads   []int
-	ri      int // read call index
-	carry   int // remainder of the current chunk
-	tempErr map[int]bool
+	data     []byte
+	off      int
+	reads    []int
+	ri       int // read call index
+	carry    int // remainder of the current chunk
+	tempErr  map[int]bool
 	withData bool
-	ctx     *kit.Ctx
-	calls   int
+	ctx      *kit.Ctx
+	calls    int
 	maxCalls int
-	inHdr   func(off int) bool
-	hdrEnds int
-	spun    bool
+	inHdr    func(off int) bool
+	hdrEnds  int
+	spun     bool
 }
 
 func (c *chunkReader) Read(p []byte) (int, error) {
@@ -396,6 +421,94 @@ func (e StreamEngine) Run(t *testing.T, ctx *kit.Ctx, sc *kit.Scenario[StreamCon
 		case <-ls.Done():
 		case <-time.After(60 * time.Second):
 			panic("harness: the transport's receive loop did not end within 60 s of the end of the stream")
+		}
+		wire.close()
+	case "udp":
+		// the UDP transport reads its socket through the same stream framing: every datagram is one read() result,
+		// and a block may span datagrams. One datagram is in flight at a time (the next is sent once every block
+		// that the bytes sent so far complete has been delivered), so the kernel never has a reason to drop one
+		wire := openRealWire("udp")
+		if wire == nil {
+			ctx.Probe("loopback-sockets-unavailable")
+			res.Steps = len(blocks)
+			return res
+		}
+		var mu sync.Mutex
+		ls := face.MakeVerifRecorderLinkService(wire.udp, func(f []byte) { mu.Lock(); got = append(got, f); mu.Unlock() })
+		if sc.Config.FaceMtu > 0 {
+			ls.SetMTU(sc.Config.FaceMtu)
+		}
+		ls.Run(nil)
+		ctx.Probe("receive-loop-of-real-udp-transport")
+		ends := make([]int, 0, len(want)) // stream offsets at which a block is complete
+		for o, k := 0, 0; k < len(want); k++ {
+			o += len(want[k])
+			ends = append(ends, o)
+		}
+		// pacing: at most about 48 KiB of socket buffer (a quarter of the default) is outstanding; then the harness waits until the transport's socket has
+		// been read empty (rx_queue of that port in /proc/net/udp), so the kernel never has a reason to drop one
+		drained := func() bool {
+			deadline := time.Now().Add(10 * time.Second)
+			for {
+				q, ok := udpRxQueue(wire.udpDst.Port)
+				if !ok {
+					return false
+				}
+				if q == 0 {
+					return true
+				}
+				if time.Now().After(deadline) {
+					return true // the reader is stuck: the comparison below tells
+				}
+				time.Sleep(20 * time.Microsecond)
+			}
+		}
+		if _, ok := udpRxQueue(wire.udpDst.Port); !ok {
+			ctx.Probe("loopback-sockets-unavailable")
+			wire.udp.Close()
+			<-ls.Done()
+			wire.close()
+			res.Steps = len(blocks)
+			return res
+		}
+		outstanding := 0
+		for off, i := 0, 0; off < len(data); i++ {
+			n := reads[i%len(reads)]
+			if n < 1 {
+				n = 1
+			}
+			if n > 60000 {
+				n = 60000
+			}
+			if n > len(data)-off {
+				n = len(data) - off
+			}
+			if _, err := wire.udpPeer.WriteToUDP(data[off:off+n], wire.udpDst); err != nil {
+				break
+			}
+			off += n
+			outstanding += 1280 + 2*n // what a queued datagram costs the socket's receive buffer, generously
+			if outstanding > 48<<10 {
+				drained()
+				outstanding = 0
+			}
+		}
+		drained()
+		// everything has been read from the socket; give the receive loop the time to hand the last blocks on
+		for deadline := time.Now().Add(5 * time.Second); time.Now().Before(deadline); {
+			mu.Lock()
+			have := len(got)
+			mu.Unlock()
+			if have >= len(ends) {
+				break
+			}
+			time.Sleep(100 * time.Microsecond)
+		}
+		wire.udp.Close()
+		select {
+		case <-ls.Done():
+		case <-time.After(60 * time.Second):
+			panic("harness: the transport's receive loop did not end within 60 s of closing it")
 		}
 		wire.close()
 	case "std":
